@@ -105,6 +105,16 @@ CHECKS = {
              "unchanged, no context may stay active. Redefinitions must apply to the unit and its dependants exactly while active (also nested and with keywords).",
         note="Parameter inheritance with several enclosing contexts that disagree is under-specified by the statement: skipped and counted.",
         design="5/C11"),
+    "C12": dict(
+        technique="model-based (stateful) testing: bounded-exhaustive breadth-first enumeration of operation sequences over a 21-letter alphabet on a fresh tiny registry, plus Hypothesis random sequences, each interpreted next to a reference stack model with a probe battery after every step; fault injection through four kinds of invalid activation",
+        text="Every sequence up to length 3 (4 in thorough) over enable/disable(0,1,2,all)/with-enter/with-exit/raise-inside-with/failing activation/define-new-unit "
+             "is run on a fresh registry that has rule-only, redefinition-only, mixed and invalid contexts and a default system; after every operation the "
+             "observable answers (rule conversions incl. two-hop chains, parameter-dependent values, redefined and dependent units through to(), "
+             "get_root_units, to_root_units, get_base_units, prefixed units, compatible-unit listings, number of active contexts) must equal what the model's stack "
+             "implies; a failing activation must raise and change nothing; after unwinding, the battery must equal the one recorded before the first activation. "
+             "Random sequences up to 25 operations and a shared-Context check (two registries, re-entry with other parameters) complete it.",
+        note="One known finding (base-units cache across context stacks) is excluded by construction and counted. Units defined while a redefining context is active are C13's clause.",
+        design="5/C12"),
     "C20": dict(
         technique="complete enumeration of an independently curated table of ~260 standard values x spellings x {Fraction, float} registries (differential oracle: the table)",
         text="Each entry of data/standards.txt (SI and binary prefixes, SI units, defining constants, yard/pound multiples, US/imperial capacity, avoirdupois/"
